@@ -271,15 +271,17 @@ Theorem roundtrip_lemma : forall h fuel root V K t,
                     /\ forall key w, In (key, RNode w) (snd n) -> In w V).
 Proof.
   intros h fuel root V K t Hac Hj.
-  destruct (proj1 (main h K Hac fuel) _ _ _ _ _ _ Hj (incl_refl K) [] ust0 (GI_empty h K)) as (st & Hu & G & _ & _).
-  { intros v _ w []. }
+  assert (Hsr : stack_reach h [] root) by (intros v _ w []).
+  destruct (proj1 (main h K Hac fuel) _ _ _ _ _ _ Hj (incl_refl K) [] ust0 (GI_empty h K) Hsr) as (st & Hu & G & _ & _).
   exists st. rewrite renP_nil in Hu. split; [exact Hu|]. split; [apply (g_len _ _ _ _ _ G)|].
   split; [apply (g_nodup _ _ _ _ _ G)|]. split; [apply (g_ut _ _ _ _ _ G)|].
   split; [apply (proj1 (jel_mono fuel h) _ _ _ _ _ _ Hj)|].
   intros i v Hi. destruct (g_done _ _ _ _ _ G i v Hi (fun x => x)) as (k & kids & Hh & Hn & Hk).
   exists (k, kids). split; [exact Hh|]. split.
-  - rewrite Hn. unfold ren_node, tslots. cbn. f_equal. f_equal. apply map_ext. intros [key r]. cbn.
-    rewrite renP_nil. reflexivity.
+  - rewrite Hn. unfold ren_node, tslots. cbn [fst snd].
+    replace (map (fun kv : N * ref => (fst kv, renP K V [] (snd kv))) kids)
+      with (map (fun kv : N * ref => (fst kv, ren V (snd kv))) kids); [reflexivity|].
+    apply map_ext. intros [key r]. cbn [fst snd]. rewrite renP_nil. reflexivity.
   - intros key w Hin. apply (Hk key w Hin).
 Qed.
 
@@ -297,3 +299,39 @@ Definition bad_heap2 : heap :=
     (KDict, [(1%N, RNode 3); (2%N, RNode 4)]);
     (KDict, [(1%N, RNode 1); (2%N, RNode 4)]);
     (KTuple, [(0%N, RNode 3)]) ].
+
+Lemma bad1_placeholder_left :
+  exists s st, jelly 100 bad_heap1 (RNode 0) = Some s /\ unj s ust0 = ROk (st, TNode 0)
+    /\ nth_error (uh st) 2 = Some (KInst 1%N, [(1%N, TPend (PT 0) false)]).
+Proof. eexists. eexists. split; [vm_compute; reflexivity|]. split; vm_compute; reflexivity. Qed.
+
+Lemma bad2_asserts : exists s, jelly 100 bad_heap2 (RNode 0) = Some s /\ unj s ust0 = RAssert.
+Proof. eexists. split; vm_compute; reflexivity. Qed.
+
+Lemma bad1_tuple_on_cycle : ~ tuples_acyclic bad_heap1.
+Proof.
+  intros H. apply (H 2 [(0%N, RNode 0); (0%N, RNode 1)] 0%N 0); [reflexivity|left; reflexivity|].
+  eapply reach_step; [reflexivity|left; reflexivity|apply reach_refl].
+Qed.
+Lemma bad2_tuple_on_cycle : ~ tuples_acyclic bad_heap2.
+Proof.
+  intros H. apply (H 4 [(0%N, RNode 3)] 0%N 3); [reflexivity|left; reflexivity|].
+  eapply reach_step; [reflexivity|right; left; reflexivity|apply reach_refl].
+Qed.
+
+(** a shared, cyclic graph with an (acyclic) tuple that meets the hypothesis *)
+Definition good_heap : heap :=
+  [ (KList, [(0%N, RNode 0); (0%N, RNode 1); (0%N, RNode 1); (0%N, RNode 2); (0%N, RNode 3)]);
+    (KDict, [(1%N, RNode 0); (2%N, RNode 2)]);
+    (KTuple, [(0%N, RAtom 5); (0%N, RNone)]);
+    (KInst 1%N, [(3%N, RNode 3); (4%N, RNode 1)]) ].
+Lemma good_heap_acyclic : tuples_acyclic good_heap.
+Proof.
+  intros t kids key c Hn Hin. destruct t as [|[|[|[|t]]]]; cbn in Hn; try discriminate.
+  - injection Hn as <-. cbn in Hin. destruct Hin as [E|[E|[]]]; discriminate.
+  - destruct t; discriminate.
+Qed.
+Example good_heap_roundtrip :
+  exists s st, jelly 100 good_heap (RNode 0) = Some s /\ unj s ust0 = ROk (st, TNode 0)
+    /\ uh st = map (ren_node [0; 1; 2; 3]) good_heap.
+Proof. eexists. eexists. split; [vm_compute; reflexivity|]. split; vm_compute; reflexivity. Qed.
